@@ -11,6 +11,38 @@ use vcommon::oracle::*;
 
 pub struct C10;
 
+/// text storage that keeps its address from call to call
+struct StableBuf {
+    chars: Vec<char>,
+    bytes: Vec<u8>,
+}
+impl StableBuf {
+    fn new(cap: usize) -> StableBuf {
+        StableBuf { chars: Vec::with_capacity(cap), bytes: Vec::with_capacity(cap) }
+    }
+    fn load<'a>(&'a mut self, s: &'a Strs, r: Repr) -> nucleo_matcher::Utf32Str<'a> {
+        match r {
+            Repr::Ascii => {
+                let b = s.bytes.as_ref().expect("ascii repr of non-ascii text");
+                if b.len() > self.bytes.capacity() {
+                    return s.get(r);
+                }
+                self.bytes.clear();
+                self.bytes.extend_from_slice(b);
+                nucleo_matcher::Utf32Str::Ascii(&self.bytes)
+            }
+            Repr::Unicode => {
+                if s.chars.len() > self.chars.capacity() {
+                    return s.get(r);
+                }
+                self.chars.clear();
+                self.chars.extend_from_slice(&s.chars);
+                nucleo_matcher::Utf32Str::Unicode(&self.chars)
+            }
+        }
+    }
+}
+
 #[derive(Clone, Debug, Serialize, Deserialize, Hash)]
 pub struct Call {
     pub algo: Algo,
@@ -50,7 +82,7 @@ fn call_strategy(pal: Vec<char>) -> BoxedStrategy<Call> {
     let medium = (proptest::collection::vec(any::<u16>(), 1..=6), (50u32..2500).prop_map(|h| (h, 0u32)));
     let limit = (proptest::collection::vec(any::<u16>(), 1..=4), proptest::sample::select(limit_sizes().clone()));
     let hay = prop_oneof![72 => small, 16 => medium, 12 => limit];
-    (hay, algo(), any::<bool>(), gen::any_cfg(), needle_mode(8), 0u8..4, any::<u16>(), any::<bool>(), any::<bool>(), proptest::collection::vec(any::<u32>(), 0..=2), proptest::sample::select(vec![0u32, 0, 0, 2, 100, 101, 319, 320, 2047, 2048, 2049, 3000]))
+    (hay, algo(), any::<bool>(), gen::any_cfg(), needle_mode(8), 0u8..5, any::<u16>(), any::<bool>(), any::<bool>(), proptest::collection::vec(any::<u32>(), 0..=2), proptest::sample::select(vec![0u32, 0, 0, 2, 100, 101, 319, 320, 2047, 2048, 2049, 3000]))
         .prop_map(move |((hs, (tile, limit_needle)), algo, indices, cfg, mode, nshape, nsel, hu, nu, prior, ntile)| {
             // a limit class fixes the needle length too (tiled motif)
             let (nshape, ntile) = if limit_needle > 0 && nshape != 2 { (3u8, limit_needle) } else { (nshape, ntile) };
@@ -66,6 +98,12 @@ fn call_strategy(pal: Vec<char>) -> BoxedStrategy<Call> {
                     let st = map_idx(nsel, h.len().max(1));
                     let raw: Vec<char> = if h.is_empty() { vec![pal[0]] } else { h.iter().cycle().skip(st).step_by(2).take(k).copied().collect() };
                     Text::plain(raw)
+                }
+                4 => {
+                    // two or three ASCII characters without any letter (digits, punctuation): usually rejected early
+                    const NL: &[char] = &['4', '2', '7', '.', '-', '_', '/', ':', '[', '{', '@', '~'];
+                    let k = 2 + (nsel as usize & 1);
+                    Text::plain((0..k).map(|i| NL[(nsel as usize >> (4 * i + 1)) % NL.len()]).collect())
                 }
                 _ => Text { motif: motif.iter().map(|&c| norm(c, cfg)).collect(), tile_to: ntile, tail: vec![] },
             };
@@ -92,7 +130,7 @@ impl Check for C10 {
         "C10"
     }
     fn rule(&self) -> String {
-        "sequences of 1-6 calls sharing one Matcher (config switched per call): algorithm among the 12 entry points, haystack from a per-sequence palette (0-40 chars, 50-2500 tiled, or a limit size from {1023..1025, 320/321, 51200/51201, 65535/65536, 70000, 100000, 120000}), needle normalized-derived / raw not-normalized / tiled to {2,100,101,319,320,2047,2048,2049,3000}, representation bits, prior index content; before 12% of the calls the shared matcher is replaced by a clone of itself (original dropped) or the call runs on a temporary clone. Oracle: no panic or overflow (checked profile), every scratch view exported by the slab hook lies inside the slab allocation, and result + appended indices equal those of a freshly created matcher. Non-trivial: the sequence has >= 2 calls that reached the matrix allocator with different sizes, a later one smaller, or a call in a limit class. Distinct by case hash. The cargo-fuzz target fuzz_matcher (ASan + debug assertions) runs the same oracle coverage-guided in the thorough tier.".into()
+        "sequences of 1-6 calls sharing one Matcher (configuration assigned only when it differs from the previous call's; 40% of the sequences use one configuration throughout; haystack and needle of every call are stored at the same addresses): algorithm among the 12 entry points, haystack from a per-sequence palette (0-40 chars, 50-2500 tiled, or a limit size from {1023..1025, 320/321, 51200/51201, 65535/65536, 70000, 100000, 120000}), needle normalized-derived / raw not-normalized / 2-3 ASCII non-letters / tiled to {2,100,101,319,320,2047,2048,2049,3000}, representation bits, prior index content; before 12% of the calls the shared matcher is replaced by a clone of itself (original dropped) or the call runs on a temporary clone. Oracle: no panic or overflow (checked profile), every scratch view exported by the slab hook lies inside the slab allocation, and result + appended indices equal those of a freshly created matcher. Non-trivial: the sequence has >= 2 calls that reached the matrix allocator with different sizes, a later one smaller, or a call in a limit class. Distinct by case hash. The cargo-fuzz target fuzz_matcher (ASan + debug assertions) runs the same oracle coverage-guided in the thorough tier.".into()
     }
     fn assumptions(&self) -> Vec<String> {
         vec!["haystacks stay far below the documented 2^32 limit (memory)".into(), "Miri-grade provenance rules are not checked; 'forming references' is covered for the five slab views through the exported extents".into()]
@@ -104,7 +142,18 @@ impl Check for C10 {
         }
     }
     fn strategy(&self, _tier: Tier) -> BoxedStrategy<SeqCase> {
-        gen::any_palette().prop_flat_map(|pal| proptest::collection::vec(call_strategy(pal), 1..=6)).prop_map(|calls| SeqCase { calls }).boxed()
+        (gen::any_palette().prop_flat_map(|pal| proptest::collection::vec(call_strategy(pal), 1..=6)), proptest::bool::weighted(0.4))
+            .prop_map(|(mut calls, same_cfg)| {
+                // in 40% of the sequences all calls use one configuration (which is then assigned only once)
+                if same_cfg {
+                    let c0 = calls[0].cfg;
+                    for c in calls.iter_mut() {
+                        c.cfg = c0;
+                    }
+                }
+                SeqCase { calls }
+            })
+            .boxed()
     }
     fn run(&self, case: &SeqCase) -> Outcome {
         let mut out = Outcome::default();
@@ -113,6 +162,11 @@ impl Check for C10 {
         // created with)
         let mut shared = Matcher::new(case.calls.first().map(|c| c.cfg).unwrap_or(Cfg { ignore_case: true, normalize: true, prefer_prefix: false, profile: 0 }).to_config());
         let mut alloc_sizes: Vec<(usize, usize)> = vec![];
+        // haystacks and needles of all calls live in the same four buffers (same addresses, new contents): a
+        // matcher must not recognise its inputs by where they are stored
+        let mut hbuf = StableBuf::new(140_000);
+        let mut nbuf = StableBuf::new(8_192);
+        let mut prev_cfg: Option<Cfg> = None;
         let mut limit_class = false;
         for (k, c) in case.calls.iter().enumerate() {
             out.sub_evals += 1;
@@ -138,10 +192,21 @@ impl Check for C10 {
             } else {
                 &mut shared
             };
-            target.config = c.cfg.to_config();
+            // the configuration is only assigned when it differs from the previous call's: whatever a call does
+            // to the matcher's configuration internally has to be undone by the call itself
+            if c.clone_mode == 2 || prev_cfg != Some(c.cfg) {
+                target.config = c.cfg.to_config();
+            } else {
+                out.label("config-not-reassigned");
+            }
+            if c.clone_mode != 2 {
+                prev_cfg = Some(c.cfg);
+            }
+            let hv = hbuf.load(&hay, hr);
+            let nv = nbuf.load(&needle, nr);
             let r1 = guarded(|| {
                 let mut v = prior_vec(&c.prior, 2);
-                let r = call(target, c.algo, hay.get(hr), needle.get(nr), c.indices.then_some(&mut v));
+                let r = call(target, c.algo, hv, nv, c.indices.then_some(&mut v));
                 (r, v)
             });
             let ext = nucleo_matcher::verif::take_last_slab_extents();
